@@ -643,8 +643,9 @@ fn rat_bbt(g: &mut Gen, n: usize, c: i64) -> Vec<Rat> {
 }
 
 pub fn gen(g: &mut Gen) {
-    let max_n = if g.thorough { 6 } else { 4 };
-    let reps = if g.thorough { 40 } else { 12 };
+    let max_n = if g.thorough { 8 } else { 4 };
+    let max_rat = if g.thorough { 6 } else { 4 };
+    let reps = if g.thorough { 120 } else { 32 };
 
     // ---- Cholesky over Fp: all pivot paths ---------------------------------------------------
     for n in 1..=max_n {
@@ -723,7 +724,7 @@ pub fn gen(g: &mut Gen) {
     }
 
     // ---- non-square inputs (Cholesky, LDLᵀ) and every QR shape --------------------------------
-    let max_q = if g.thorough { 6 } else { 5 };
+    let max_q = if g.thorough { 8 } else { 5 };
     for rows in 1..=max_q {
         for cols in 1..=max_q {
             if rows != cols && rows <= max_n + 1 && cols <= max_n + 1 {
@@ -733,7 +734,9 @@ pub fn gen(g: &mut Gen) {
                 g.count("ldlt.fp.non-square");
                 emit(g, "ldlt", "fp", rows, cols, &a, true);
                 let a: Vec<Rat> = (0..rows * cols).map(|_| rat_small(g)).collect();
+                g.count("chol.rat.non-square");
                 emit(g, "chol", "rat", rows, cols, &a, false);
+                g.count("ldlt.rat.non-square");
                 emit(g, "ldlt", "rat", rows, cols, &a, false);
             }
             let wide = cols > rows;
@@ -756,7 +759,7 @@ pub fn gen(g: &mut Gen) {
     }
 
     // ---- exact rationals ------------------------------------------------------------------------
-    for n in 1..=max_n {
+    for n in 1..=max_rat {
         for _ in 0..reps {
             // Cholesky of L·Lᵀ returns L itself
             let (_l, a) = rat_llt(g, n);
@@ -808,7 +811,7 @@ pub fn gen(g: &mut Gen) {
 
     // ---- f64 sanity oracle: implementation against the defining identities ------------------------
     let max_f = 8;
-    let f_reps = if g.thorough { 6 } else { 2 };
+    let f_reps = if g.thorough { 12 } else { 4 };
     for n in 1..=max_f {
         for _ in 0..f_reps {
             for kind in ["spd", "indef", "semi"] {
